@@ -55,7 +55,7 @@ def run(t, budget=1.0):
         entry, mi, L = pc.draw_target(data)
         M = entry.model
         cfgs = entry.status["configs"]
-        family = data.draw(st.sampled_from(["read", "read", "write", "hostile", "cursor"]))
+        family = data.draw(st.sampled_from(["read", "read", "write", "hostile", "cursor", "cursor"]))
         res.cls("family_" + family)
         if family in ("read", "hostile"):
             vals = data.draw(values.level_values(L, max_entries=3, inflate=data.draw(st.booleans())))
@@ -126,6 +126,11 @@ def run(t, budget=1.0):
             img, size = M.encode_message(L, vals, background=0x33)
             lay = c04.layout_level(M, L, vals, M.header.size, vals.get("extra", 0))
             sq = c04.Seq(M, img)
+            if data.draw(st.booleans()):
+                # setter-heavy variant: most members written, one wrapper preferred (exercises each wrapper's setters, incl. last fields)
+                sq.write_weight = 3
+                sq.prefer = data.draw(st.sampled_from(["p", "i", "d", "j"]))
+                res.cls("cursor_setter_heavy_" + sq.prefer)
             sq.tok.append("I")
             sq.cur = M.header.size
             sq.c()
@@ -189,7 +194,7 @@ def run(t, budget=1.0):
                         "[%s] encode script on message %s bound to %d of %d bytes: %s" % (cfg, L.name, n, full, resp[:200]))
         res.cls("cmd_encode")
 
-    pc.run_hypothesis(body, 200 if t == "quick" else 4000)
+    pc.run_hypothesis(body, 400 if t == "quick" else 6000)
     return pc.finish()
 
 
